@@ -19,7 +19,7 @@ func TestMain(m *testing.M) {
 		Property: "C06", Level: "exploration",
 		Rule: "rapid draws a declared block tree (2..40 blocks, forks, one or two roots, gap parents, never-committed blocks, abandoned transactions, the same block executed twice, SetBlockHash after creation; 1..4 keys; 0..3 transactions per block with sets/removes) and then a schedule: blocks start in or out of order, transaction writes interleave, transactions commit in declaration order, blocks commit in any order (child before parent included), and lookups through TransactionCache.Get, BlockCache.Get, QueryBlockCache.Get and StateCache.Get are issued at any block at any time. " +
 			"Oracle: every HIT must equal the truth = own pending transaction writes, then the block's pending writes, then the first write/tombstone met walking the DECLARED parent links (a gap or never-committed block ends the walk: any hit beyond it is a violation); misses are always accepted. " +
-			"A separate capacity generator builds chains of 250..400 blocks over one key with re-reads. Non-trivial = the tree has a fork or a key written at two depths of a chain of >=3 blocks, and a lookup at a non-tip block preceded a lookup at one of its descendants; distinct = distinct (tree, schedule log).",
+			"A separate capacity generator builds chains of 250..400 blocks over one key with re-reads. Blocks may write directly on their block cache before their transactions; 30% of the writes store a value the key had before; a fifth of the trees are quiet chains of 22..60 blocks (answers 20+ links back). Non-trivial = the tree has a fork or a key written at two depths of a chain of >=3 blocks, and a lookup at a non-tip block preceded a lookup at one of its descendants; distinct = distinct (tree, schedule log).",
 		Assumptions: []string{"a BlockCache/TransactionCache is not used for lookups after its block was committed (callers drop them)", "two BlockCache objects for one block hash carry identical content", "StateCache.Remove(key) (drops a key's whole history; outside the property's quantifier, and it does make later ancestor walks return stale values) is not drawn", "main campaign sizes stay below the cache capacities (200 versions per key, 2000 links)"},
 	})
 	ev.Main(m)
